@@ -1,0 +1,11 @@
+//go:build verif
+
+package node
+
+// Exported wrapper for the verification harness (/verif, property C14). Built only with -tags verif.
+
+// VerifHandleReuseOldCheckpoint runs handleReuseOldCheckpoint (reuse of the sst files of the latest
+// checkpoint fetched from the same source, before a snapshot transfer).
+func VerifHandleReuseOldCheckpoint(srcInfo string, localPath string, term uint64, index uint64, skipReuseN int) (string, string) {
+	return handleReuseOldCheckpoint(srcInfo, localPath, term, index, skipReuseN)
+}
